@@ -190,6 +190,8 @@ def scenario_for(seed, index, tier):
                                ['disc_imm'], ['wait_quiet'], ['sleep'],
                                ['disc', 'connect', 'wait_play'],
                                ['disc', 'connect', 'sleep', 'connect'],
+                               ['status_hs', 'wait_play'],
+                               ['status_hp', 'wait_play'],
                                ['disc', 'connect', 'wait_quiet', 'connect',
                                 'wait_play']])
         threads.append(ops)
@@ -415,6 +417,26 @@ def execute(scenario, tape):
                         rec = call('status', k, conn.status,
                                    handle_status=False, handle_ping=False)
                         after_refusal(rec)
+                    elif op in ('status_hs', 'status_hp'):
+                        # a status query whose result handler reuses the
+                        # connection object (the library has closed the
+                        # status connection before it calls the handler)
+                        last_conn_base = len(w.net.conns)
+
+                        def reuse(_value, _k=k):
+                            rec2 = call('connect', 'status-handler',
+                                        conn.connect)
+                            if not rec2.r.ok:
+                                raise rec2.r.exc
+                        if op == 'status_hs':
+                            rec = call('status', k, conn.status,
+                                       handle_status=reuse,
+                                       handle_ping=False)
+                        else:
+                            rec = call('status', k, conn.status,
+                                       handle_status=False,
+                                       handle_ping=reuse)
+                        after_refusal(rec)
                     elif op == 'disc':
                         call('disc', k, conn.disconnect)
                     elif op == 'disc_imm':
@@ -468,7 +490,8 @@ def execute(scenario, tape):
             # a session started from a listener / exception handler gets the
             # chance to come up before everything is torn down
             cb = [r for r in st['recs'] if r.op == 'connect' and
-                  r.by in ('handler', 'listener') and r.r is not None
+                  r.by in ('handler', 'listener', 'status-handler') and
+                  r.r is not None
                   and r.r.ok]
             if cb and w.net.conns:
                 tcp = w.net.conns[-1]
@@ -790,11 +813,33 @@ def check(scenario, w, st, res):
             bad.update(behs=behs, errs=st['errs'][-2:],
                        handshakes=[a.handshake for a in new])
             V.append(('C16/accepted-connect-unusable:%s' % who, bad))
+    # ---- O3c: a connect() made from a status/ping result handler comes
+    # after the library has closed the status connection: not refused
+    for r in calls:
+        if r.op != 'connect' or r.by != 'status-handler':
+            continue
+        parent = [o for o in calls if o.op == 'status' and o.r.ok and
+                  o.r.ret < r.r.inv]
+        if not parent:
+            continue
+        par = max(parent, key=lambda o: o.r.ret)
+        others = [o for o in mutating if o is not r and o is not par and
+                  o.r.inv < (r.r.ret or 10**12) and
+                  (o.r.ret or 10**12) > par.r.inv]
+        if others or live_at(par.r.inv):
+            continue
+        ob()
+        res.probes['status-handler-reuse-checked'] = \
+            res.probes.get('status-handler-reuse-checked', 0) + 1
+        if not r.r.ok and type(r.r.exc).__name__ == 'InvalidState':
+            V.append(('C16/refused-in-status-result-handler',
+                      {'status_call_by': str(par.by)}))
+            break
     # ---- O8: a connect() made from inside a listener / exception handler
     # and answered by a healthy server yields a usable session
     final_from = st.get('final_from', 10**12)
     for r in calls:
-        if r.op != 'connect' or r.by not in ('handler', 'listener') or \
+        if r.op != 'connect' or r.by not in ('handler', 'listener', 'status-handler') or \
                 not r.r.ok:
             continue
         att = [d for _s, k_, d in r.attempts if k_ == 'connect']
